@@ -1074,6 +1074,16 @@ class Interp(object):
             return None if s is None else (not s)
         if k in ("new", "extnew", "closure", "func", "class", "partial", "lambda"):
             return True
+        if k == "attr":
+            t = self.type_of(v, path)
+            if t in ("E:Event", "E:Lock", "E:RLock", "E:Condition", "E:Thread", "E:Future"):
+                return True  # these objects define no truth value: always true
+        if k == "elem":
+            t = self.elem_type(v, path)
+            if t and t.startswith("C:"):
+                ci = self.prog.classes.get(t[2:])
+                if ci is not None and ci.record_fields is None and ci.lookup("__bool__")[1] is None and ci.lookup("__len__")[1] is None and ci.lookup("__nonzero__")[1] is None:
+                    return True  # an object of a class that defines no truth value is true
         if k in ("tuple", "list", "set"):
             return len(v[1]) > 0
         if k == "seq":
@@ -1633,7 +1643,7 @@ class Interp(object):
                 return True
             # method of a user-supplied object (policy.should_retry)
             b = t[1]
-            if isinstance(b, tuple) and b[0] == "attr" and b[2] in self.types.tainted_fields and self.class_of(b, path) is None:
+            if isinstance(b, tuple) and b[0] == "attr" and b[2] in self.types.tainted_fields:
                 return True
             if isinstance(b, tuple) and b[0] == "param" and b[1] in ("retry_policy", "policy"):
                 return True
@@ -1655,6 +1665,10 @@ class Interp(object):
         if special is not None:
             return special
         callee, selfv, self_cls, approx = self.resolve_callee(fv, p, node)
+        if callee is not None and isinstance(fv, tuple) and fv[0] == "attr" and isinstance(fv[1], tuple) and fv[1][0] == "attr" and fv[1][2] in self.types.tainted_fields and callee.owner is not None:
+            # a method of an object the user may supply (a retry policy): the library's default class is only one
+            # possibility, the call is user code
+            callee, selfv, self_cls, approx = None, None, None, False
         user = callee is None and self.is_user(fv, p)
         d = {"func": fv, "args": args, "kwargs": kwargs, "callee": callee, "user": user, "inlined": False, "approx": approx}
         if isinstance(fv, tuple) and fv[0] == "attr" and fv[2] == "wait":
@@ -1907,6 +1921,36 @@ class Interp(object):
                         return self.types.deref_types[key]
             return None
         if k == "elem":
+            return None
+        return None
+
+    def elem_type(self, v, path, depth=0):
+        """package class of an element of a container field (from the values appended to it anywhere); used for what
+        is true of every instance (truthiness), not for call resolution"""
+        if not (isinstance(v, tuple) and v and v[0] == "elem"):
+            return None
+        if True:
+            # element of a container field whose appended values have one known package class
+            b = v[1]
+            for _ in range(4):
+                if isinstance(b, tuple) and b and b[0] == "sub" and isinstance(b[2], tuple) and b[2][0] == "slice":
+                    b = b[1]
+                elif isinstance(b, tuple) and b and b[0] == "call" and b[1] in (("name", "list"), ("name", "tuple"), ("name", "reversed"), ("name", "iter")) and len(b[2]) == 1:
+                    b = b[2][0]
+                elif isinstance(b, tuple) and b and b[0] == "listof" and not b[2]:
+                    b = b[1]
+                else:
+                    break
+            if isinstance(b, tuple) and b and b[0] == "attr":
+                bt = self.type_of(b[1], path, depth + 1)
+                if bt and bt.startswith("C:"):
+                    ci = self.prog.classes.get(bt[2:])
+                    ets = set()
+                    for c in (ci.mro() if ci is not None else []):
+                        if hasattr(c, "key"):
+                            ets |= self.types.elem_types.get((c.key, b[2]), set())
+                    if len(ets) == 1:
+                        return next(iter(ets))
             return None
         return None
 
